@@ -12,7 +12,7 @@ def scale_inner(op):
         return " ".join(t[4:])
     return None
 
-HOOK_COMMITS = []
+HOOK_COMMITS = ["4cde1b723c3874958de49eb769ff5405f4418d22"]
 
 def base_op(op):
     t = op.split(" ")
